@@ -137,11 +137,23 @@ def r_kernel_eq(A, ctx, scope, rule="R-KERNEL-EQ", select=None):
     n = 0
     X, csc = design()
 
-    def run(tag, fn_d, fn_s, mk, where):
+    def run(tag, fn_d, fn_s, mk, where, worlds=None):
         """mk(L, sparse) -> (args, observed) ; observed() returns the arrays to compare"""
+        if worlds:
+            decided = 0
+            for k, extra in enumerate(worlds):
+                decided += bool(run1(f"{tag}, direction x{k}", fn_d, fn_s, mk, where, extra, tolerant=True))
+            if select is None or select(fn_d):
+                if decided < 2:
+                    ctx.ob(rule, f"{fn_d.fq}::{tag}::variants", None,
+                           detail=f"only {decided} of {len(worlds)} direction lengths were decided")
+        else:
+            run1(tag, fn_d, fn_s, mk, where, None)
+
+    def run1(tag, fn_d, fn_s, mk, where, extra, tolerant=False):
         nonlocal n
         if select is not None and not select(fn_d):
-            return
+            return False
         key = f"{fn_d.fq}::{tag}"
         import signal
 
@@ -155,6 +167,8 @@ def r_kernel_eq(A, ctx, scope, rule="R-KERNEL-EQ", select=None):
             outs = []
             for sparse in (False, True):
                 rg = Region(world())
+                if extra:
+                    rg.values.update(extra)
                 L = RegionLifter(prog, rg, max_steps=40000)
                 args, observed = mk(L, sparse)
                 ret = L.call_function(fn_s if sparse else fn_d, args)
@@ -168,14 +182,24 @@ def r_kernel_eq(A, ctx, scope, rule="R-KERNEL-EQ", select=None):
             ctx.ob(rule, key, d is None,
                    what=f"{fn_d.name} and {fn_s.name} disagree with {tag} on the 3x3 design with "
                         f"structural zeros: {d} (dense vs CSC)", loc=where)
+            return True
         except Raised as e:
             n += 1
             ctx.ob(rule, key, False, what=f"{fn_d.name}/{fn_s.name} raises with {tag}: {e}", loc=where)
+            return True
         except (Unsupported, ZeroDivisionError) as e:
+            if tolerant and "region boundary" in str(e):
+                ctx.note(f"{rule}: {key}: this direction length ends on a region boundary (never-accepted "
+                         "step): variant skipped")
+                return False
             ctx.ob(rule, key, None, detail=f"not lifted: {e}")
+            return False
         finally:
             signal.alarm(0)
             signal.signal(signal.SIGALRM, old)
+            import os
+            if os.environ.get("SA_TIMING"):
+                print(f"  total {key}: {_t.time() - t0:.1f}s")
 
     y = Vec(sym(f"y{i}") for i in range(N))
     ws = Vec([2, 0])
@@ -338,7 +362,11 @@ def r_kernel_eq(A, ctx, scope, rule="R-KERNEL-EQ", select=None):
                              "for the other datafits)")
             else:
                 run(f"{dcls.name} x L1, fit_intercept={fi}", dd_d, dd_s, mk_dd, loc(dd_s, dd_s.node))
-            run(f"{dcls.name} x L1, fit_intercept={fi}", ls_d, ls_s, mk_ls, loc(ls_s, ls_s.node))
+            # several lengths of the direction: on the longer ones the unit step is rejected
+            # and the backtracking branch of both copies is lifted
+            base = {"d0": -0.31, "d1": 0.26, "db": 0.13, "Xd0": -0.05, "Xd1": 0.05, "Xd2": 0.15}
+            run(f"{dcls.name} x L1, fit_intercept={fi}", ls_d, ls_s, mk_ls, loc(ls_s, ls_s.node),
+                worlds=[{k: v * sc for k, v in base.items()} for sc in (1.0, 4.0, 16.0, -4.0)])
     ctx.floor(rule, n, scope.get("floor", 10))
 
 
